@@ -253,3 +253,75 @@ Fixpoint g1_mul_nat (k : nat) (a : g1) : g1 :=
   match k with O => G1Inf | S k' => g1_add (g1_mul_nat k' a) a end.
 (* sig.go Sign: ScalarMult(hashToG1(msg), sk) — here for a small scalar *)
 Definition sign_small (digest : bytes) (k : nat) : g1 := g1_mul_nat k (hash_to_g1 digest).
+
+(* ---------- 5. G1 scalar multiplication as the code does it (curve.go) ---------- *)
+(* Jacobian coordinates (x, y, z): the affine point (x/z^2, y/z^3); z = 0 is the point at infinity *)
+Definition jpt := (Z * Z * Z)%type.
+Definition jinf : jpt := (0, 1, 0).
+Definition j_is_inf (a : jpt) : bool := let '(_, _, z) := a in z =? 0.
+
+(* curvePoint.Double (dbl-2009-l), operation by operation *)
+Definition jdouble (a : jpt) : jpt :=
+  let '(x, y, z) := a in
+  let A := fmul x x in let B := fmul y y in let C := fmul B B in
+  let t := fadd x B in let t2 := fmul t t in let t := fsub t2 A in let t2 := fsub t C in
+  let d := fadd t2 t2 in
+  let t := fadd A A in let e := fadd t A in let f := fmul e e in
+  let t := fadd d d in let cx := fsub f t in
+  let cz := fmul y z in let cz := fadd cz cz in
+  let t := fadd C C in let t2 := fadd t t in let t := fadd t2 t2 in
+  let cy := fsub d cx in let t2 := fmul e cy in let cy := fsub t2 t in
+  (cx, cy, cz).
+
+(* curvePoint.Add (add-2007-bl) *)
+Definition jadd (a b : jpt) : jpt :=
+  if j_is_inf a then b else if j_is_inf b then a else
+  let '(x1, y1, z1) := a in let '(x2, y2, z2) := b in
+  let z12 := fmul z1 z1 in let z22 := fmul z2 z2 in
+  let u1 := fmul x1 z22 in let u2 := fmul x2 z12 in
+  let t := fmul z2 z22 in let s1 := fmul y1 t in
+  let t := fmul z1 z12 in let s2 := fmul y2 t in
+  let h := fsub u2 u1 in
+  let t := fadd h h in let i := fmul t t in let j := fmul h i in
+  let t := fsub s2 s1 in
+  if (h =? 0) && (t =? 0) then jdouble a else
+  let r := fadd t t in
+  let v := fmul u1 i in
+  let t4 := fmul r r in let t := fadd v v in let t6 := fsub t4 j in
+  let cx := fsub t6 t in
+  let t := fsub v cx in let t4 := fmul s1 j in let t6 := fadd t4 t4 in let t4 := fmul r t in
+  let cy := fsub t4 t6 in
+  let t := fadd z1 z2 in let t4 := fmul t t in let t := fsub t4 z12 in let t4 := fsub t z22 in
+  let cz := fmul t4 h in
+  (cx, cy, cz).
+
+(* curvePoint.Mul: for i = BitLen(k) downto 0: sum = 2*sum, plus a when bit i is set *)
+Fixpoint jmul_bits (bits : list bool) (a sum : jpt) : jpt :=
+  match bits with
+  | nil => sum
+  | b :: r => let t := jdouble sum in jmul_bits r a (if b then jadd t a else t)
+  end.
+Fixpoint pos_bits (p : positive) (acc : list bool) : list bool :=     (* most significant first *)
+  match p with
+  | xH => true :: acc
+  | xO q => pos_bits q (false :: acc)
+  | xI q => pos_bits q (true :: acc)
+  end.
+Definition jmul (k : Z) (a : jpt) : jpt :=
+  match k with
+  | Zpos p => jmul_bits (false :: pos_bits p nil) a jinf      (* bit BitLen(k) is 0 *)
+  | _ => jdouble jinf                                         (* k = 0: one doubling of infinity *)
+  end.
+(* curvePoint.MakeAffine followed by the value G1.Marshal sees *)
+Definition j_to_g1 (a : jpt) : g1 :=
+  let '(x, y, z) := a in
+  if z =? 0 then G1Inf else
+  let zi := finv z in
+  let t := fmul y zi in let zi2 := fmul zi zi in
+  G1Aff (fmul x zi2) (fmul t zi2).
+(* sig.go Sign / G1.ScalarMult on an affine input point *)
+Definition g1_scalar_mult (k : Z) (v : g1) : g1 :=
+  match v with
+  | G1Aff x y => j_to_g1 (jmul k (x, y, 1))
+  | _ => v
+  end.
